@@ -72,7 +72,8 @@ func GenerateConcept(r *run.Rand, o ConceptOpts) *ConceptCase {
 				var wd Word
 				switch {
 				case w > 0 && r.Chance(1, 12):
-					wd = Word{Text: r.Pick([]string{"2", "7", "10", "404", "2024"}), Digit: true}
+					// also timestamps / sequence numbers that do not fit a machine integer (19 digits above 2^63-1, 20 and 25 digits)
+					wd = Word{Text: r.Pick([]string{"2", "7", "10", "404", "2024", "1234567890123456789", "9223372036854775808", "20240131120000123456", "2024013112000012345678901"}), Digit: true}
 				case stopRate == "many" && r.Chance(1, 2), stopRate == "some" && r.Chance(1, 4):
 					wd = Word{Text: r.Pick(stopWords), Stop: true}
 				case r.Chance(1, 10) || (w == 0 && r.Chance(1, 8)):
